@@ -275,6 +275,11 @@ func c10(r *Run) {
 		}
 	}
 
+	if w.Cfg.Name == "linux" {
+		// premise of the "under the flushing lock" justification in R4
+		r.borrow([]string{"C05.R8:stop-flushing-first:operator.Free"}, "C05.R8", "C10.R4", func() { c05(r) })
+	}
+
 	// ---- R5 Control reads FD before inuse() --------------------------------------------------------
 	{
 		ctl := w.MustFn("(*defaultPoll).Control")
